@@ -4,7 +4,7 @@
 use crate::c02::{seed_fnv, INIT};
 use crate::c04::{gen_stream, hash_with};
 use crate::dens::D;
-use crate::ssk::new16;
+use crate::ssk::{new16, new32};
 use crate::util::*;
 use fnv::FnvHasher;
 use indexmap::IndexMap;
@@ -17,7 +17,9 @@ use std::hash::BuildHasherDefault;
 use std::process::Command;
 use std::sync::{Arc, Barrier};
 
-pub const KINDS: [&str; 11] = ["pmh3", "pmh3hashmap", "pmh3a", "pmh3ahashmap", "pmh3asha", "pmh2", "ord", "smh", "smh2", "ssk", "dens"];
+pub const KINDS: [&str; 14] = ["pmh3", "pmh3hashmap", "pmh3a", "pmh3ahashmap", "pmh3asha", "pmh2", "ord", "smh", "smh2", "ssk", "dens",
+    // other instantiations of the generic sketchers, with parameters whose values exceed the narrower type's range
+    "ssk32wide", "smh32", "dens32"];   // (SuperMinHash2<u32> needs a 32-bit hasher: documented precondition)
 
 fn bh() -> BuildHasherDefault<FnvHasher> {
     BuildHasherDefault::<FnvHasher>::default()
@@ -88,6 +90,25 @@ pub fn sketch_text(kind: &str, m: usize, items: &[u64]) -> String {
             let kv: Vec<u64> = s.get_signature().iter().map(|x| *x as u64).collect();
             join(&kv)
         }
+        "ssk32wide" => {
+            // u32 registers well above u16::MAX (b close to 1, q = 2^20)
+            let mut s = new32((1.0001, m as u64, 20.0, 1 << 20));
+            s.sketch_slice(items).unwrap();
+            let kv: Vec<u64> = s.get_signature().iter().map(|x| *x as u64).collect();
+            format!("{} ovf={}", join(&kv), s.get_nb_overflow())
+        }
+        "smh32" => {
+            let mut s = SuperMinHash::<f32, u64, FnvHasher>::new(m, bh());
+            s.sketch_slice(items).unwrap();
+            join(&s.get_hsketch().iter().map(|x| x.to_bits() as u64).collect::<Vec<_>>())
+        }
+        "dens32" => {
+            let mut a = D::new(2, m);
+            a.sketch_slice(items);
+            let mut b = D::new(3, m);
+            b.sketch_slice(items);
+            format!("{} / {}", join(&a.u64view()), join(&b.u64view()))
+        }
         "dens" => {
             let mut a = D::new(0, m);
             a.sketch_slice(items);
@@ -105,11 +126,17 @@ pub fn child(args: &[String]) {
     let seed: u64 = args[2].parse().unwrap();
     let n: usize = args[3].parse().unwrap();
     let items = gen_stream(&mut Sm64(seed), n);
+    // prelude: other sketchers (other instantiations) run first in this process — process-wide state they
+    // leave behind (statics, caches, thread-locals) must not influence the target
+    for k in &args[4..] {
+        let warm = gen_stream(&mut Sm64(seed ^ 0x5555), 25);
+        let _ = sketch_text(k, 8, &warm);
+    }
     println!("{}", sketch_text(&args[0], m, &items));
 }
 
 pub fn corr(ctx: &mut Ctx) {
-    let nproc = ctx.n(3, 12) as usize;
+    let nproc = ctx.n(4, 12) as usize;
     let rounds = ctx.n(2, 8);
     for r in 0..rounds {
         for kind in KINDS.iter() {
@@ -144,8 +171,17 @@ pub fn corr(ctx: &mut Ctx) {
             // separate processes (different address-space layout and RandomState keys)
             let exe = std::env::current_exe().unwrap();
             for pi in 0..nproc {
-                let out = Command::new(&exe).arg("child-c12").arg(kind).arg(m.to_string()).arg(seed.to_string()).arg(n.to_string()).output().unwrap();
-                all.push((format!("process{}", pi), String::from_utf8_lossy(&out.stdout).lines().next().unwrap_or("CRASH").to_string()));
+                // process histories: fresh / every other sketcher first / the same in reverse / a random subset
+                let mut prelude: Vec<&str> = match pi % 4 {
+                    0 => vec![],
+                    1 => KINDS.iter().cloned().filter(|k| k != kind).collect(),
+                    2 => KINDS.iter().rev().cloned().filter(|k| k != kind).collect(),
+                    _ => KINDS.iter().cloned().filter(|_| ctx.rng.below(2) == 0).collect(),
+                };
+                if pi % 4 == 3 { let n0 = prelude.len(); if n0 > 1 { let j = ctx.rng.below(n0 as u64) as usize; prelude.swap(0, j); } }
+                ctx.count(["process history=fresh", "process history=all other sketchers first", "process history=all others, reverse order", "process history=random subset"][pi % 4]);
+                let out = Command::new(&exe).arg("child-c12").arg(kind).arg(m.to_string()).arg(seed.to_string()).arg(n.to_string()).args(&prelude).output().unwrap();
+                all.push((format!("process{} after [{}]", pi, prelude.join(",")), String::from_utf8_lossy(&out.stdout).lines().next().unwrap_or("CRASH").to_string()));
             }
             for (who, txt) in &all {
                 if txt != &reference {
